@@ -1,5 +1,5 @@
-(* The repaired consistency verifier (Merkle/VerifyFixed.v) is position-exact WITHOUT any premise on
-   the proof, complete for the generated proofs, and never panics. *)
+(* The current consistency verifier (Merkle/VerifyFixed.v, /repo 05f2785) is position-exact WITHOUT
+   any premise on the proof, complete for the generated proofs, and never panics. *)
 From V Require Import Merkle.Verify Merkle.VerifyFixed Merkle.Sound Merkle.Exact.
 From V Require Import Merkle.AHT Merkle.AHTArith Merkle.AHTSpec Merkle.AHTCons Merkle.ConsComplete Merkle.ConsExact.
 From Coq Require Import Lia ZifyN ZifyNat ZifyBool.
